@@ -816,6 +816,7 @@ var invalidAnywhere = []string{
 	"x=\"abc\n\";", "x=1e;", "x=0x;",
 	"x=/(?</;", "x=/a(?<!/;", "x=/(?<=/;", "x=/(?</g;", "x=/\\/;",
 	"x=1e3in{};", "x=.5E-2instanceof Object;", "x=0e0in[];", "x=3in[];", "x=01a;", "x=0x3in[];", "x=1.5a;", "x=1.e;",
+	"a:if(1){while(1){continue a;}}", "a:{b:for(;;){continue a;}}", "function g(){a:switch(1){case 1:for(;;){continue a}}}",
 	"a:{continue a;}", "a:switch(1){case 1:continue a;}", "for(;;){(function(){continue;})()}", "while(1){(function(){break;})()}",
 	"b:{(function(){b:{}break b;})()}", "x=function(){return}return;",
 }
